@@ -126,7 +126,6 @@ impl MT942 {
 
         verify_parser_complete(&parser)?;
 
-
         Ok(MT942 {
             field_20,
             field_21,
